@@ -359,6 +359,29 @@ def c03_matchers(v, text="", features=None, ode=None, ref=None, code=None, **kw)
             return "C03-folded-constant-out-of-float-range"
     if kind == "raises" and "Integers cannot be raised to negative powers" in exc and has_int_branch_conditional(text):
         return "C03-integer-branches-make-int-where"
+    if kind == "value" and ode is not None and ref is not None and v.get("_point") and d.get("name") in ref.assigns and "Conditional" in text:
+        # counterfactual: the jax module regenerated with sympy.simplify (called from _print_Piecewise) replaced by the
+        # identity - in this harness process only - gives the expected value
+        import sympy
+
+        from ..exec.pyexec import PyModule
+        from . import common as C
+
+        orig = sympy.simplify
+        try:
+            sympy.simplify = lambda e, *a, **k: e
+            oc = C.py_code(ode, backend="jax", schemes=[d["fn"]] if d["fn"] not in ("rhs", "monitor_values") else None, **({"stiff_states": sorted(ref.states)} if d["fn"] == "hybrid_rush_larsen" else {}))
+        finally:
+            sympy.simplify = orig
+        if oc.ok and oc.value != code:
+            mod = PyModule(oc.value, "jax")
+            rec = mod.call(d["fn"], v["_point"], dt=d.get("dt"))
+            if rec.exc is None:
+                kindmap = "monitor" if d["fn"] == "monitor_values" else "state"
+                key = d["name"] if kindmap == "monitor" else [s for s, dn in ref.derivs.items() if dn == d["name"]][0]
+                got = float(rec.out[mod.names(kindmap)[key]])
+                if abs(got - d["expected"]) <= max(d["tol"], 1e-9 * abs(d["expected"])):
+                    return "C03-simplify-in-conditional-rewrites-the-branch-expression"
     if kind == "value" and ref is not None and code and d.get("name") in ref.assigns and int_branch_in_closure(ref, d["name"]) and v.get("_point"):
         # counterfactual: the same generated code with where() forced to float64 gives the expected value
         from ..exec.pyexec import PyModule
